@@ -44,72 +44,72 @@ func init() {
 		vxPath + ".Monitor":   extVxMonitor,
 
 		// ---- sync
-		"(*sync.Once).Do":        extOnceDo,
-		"(*sync.Mutex).Lock":     extLock,
-		"(*sync.Mutex).Unlock":   extUnlock,
-		"(*sync.Mutex).TryLock":  func(fr *frame, args []value) value { return true },
-		"(*sync.RWMutex).Lock":   extLock,
-		"(*sync.RWMutex).Unlock": extUnlock,
-		"(*sync.RWMutex).RLock":  extNop,
-		"(*sync.RWMutex).RUnlock": extNop,
-		"(*sync.Pool).Get":       extPoolGet,
-		"(*sync.Pool).Put":       extNop,
-		"sync/atomic.LoadInt32":  extAtomicLoad,
-		"sync/atomic.LoadUint32": extAtomicLoad,
-		"sync/atomic.LoadInt64":  extAtomicLoad,
-		"sync/atomic.LoadUint64": extAtomicLoad,
-		"sync/atomic.LoadPointer": extAtomicLoad,
-		"sync/atomic.LoadUintptr": extAtomicLoad,
-		"sync/atomic.StoreInt32":  extAtomicStore,
-		"sync/atomic.StoreUint32": extAtomicStore,
-		"sync/atomic.StoreInt64":  extAtomicStore,
-		"sync/atomic.StoreUint64": extAtomicStore,
-		"sync/atomic.StoreUintptr": extAtomicStore,
-		"sync/atomic.AddInt32":    extAtomicAdd,
-		"sync/atomic.AddUint32":   extAtomicAdd,
-		"sync/atomic.AddInt64":    extAtomicAdd,
-		"sync/atomic.AddUint64":   extAtomicAdd,
+		"(*sync.Once).Do":                  extOnceDo,
+		"(*sync.Mutex).Lock":               extLock,
+		"(*sync.Mutex).Unlock":             extUnlock,
+		"(*sync.Mutex).TryLock":            func(fr *frame, args []value) value { return true },
+		"(*sync.RWMutex).Lock":             extLock,
+		"(*sync.RWMutex).Unlock":           extUnlock,
+		"(*sync.RWMutex).RLock":            extNop,
+		"(*sync.RWMutex).RUnlock":          extNop,
+		"(*sync.Pool).Get":                 extPoolGet,
+		"(*sync.Pool).Put":                 extNop,
+		"sync/atomic.LoadInt32":            extAtomicLoad,
+		"sync/atomic.LoadUint32":           extAtomicLoad,
+		"sync/atomic.LoadInt64":            extAtomicLoad,
+		"sync/atomic.LoadUint64":           extAtomicLoad,
+		"sync/atomic.LoadPointer":          extAtomicLoad,
+		"sync/atomic.LoadUintptr":          extAtomicLoad,
+		"sync/atomic.StoreInt32":           extAtomicStore,
+		"sync/atomic.StoreUint32":          extAtomicStore,
+		"sync/atomic.StoreInt64":           extAtomicStore,
+		"sync/atomic.StoreUint64":          extAtomicStore,
+		"sync/atomic.StoreUintptr":         extAtomicStore,
+		"sync/atomic.AddInt32":             extAtomicAdd,
+		"sync/atomic.AddUint32":            extAtomicAdd,
+		"sync/atomic.AddInt64":             extAtomicAdd,
+		"sync/atomic.AddUint64":            extAtomicAdd,
 		"sync/atomic.CompareAndSwapInt32":  extAtomicCAS,
 		"sync/atomic.CompareAndSwapUint32": extAtomicCAS,
 		"sync/atomic.CompareAndSwapInt64":  extAtomicCAS,
 		"sync/atomic.CompareAndSwapUint64": extAtomicCAS,
-		"(*sync/atomic.Value).Store": extAtomicValueStore,
-		"(*sync/atomic.Value).Load":  extAtomicValueLoad,
+		"(*sync/atomic.Value).Store":       extAtomicValueStore,
+		"(*sync/atomic.Value).Load":        extAtomicValueLoad,
 
 		// ---- strings / bytes / bytealg
-		"strings.Index":                    extStringsIndex,
-		"strings.IndexByte":                extStringsIndexByte,
-		"strings.Count":                    extStringsCount,
-		"strings.LastIndex":                extStringsLastIndex,
-		"strings.LastIndexByte":            extStringsLastIndexByte,
-		"internal/bytealg.IndexByteString": extStringsIndexByte,
-		"internal/bytealg.IndexString":     extStringsIndex,
-		"internal/bytealg.CountString":     extCountByteString,
-		"internal/bytealg.IndexByte":       extBytesIndexByte,
-		"internal/bytealg.Index":           extBytesIndex,
-		"internal/bytealg.Count":           extBytesCountByte,
-		"internal/bytealg.Equal":           extBytesEqual,
-		"internal/bytealg.MakeNoZero":      extMakeNoZero,
+		"strings.Index":                        extStringsIndex,
+		"strings.IndexByte":                    extStringsIndexByte,
+		"strings.Count":                        extStringsCount,
+		"strings.LastIndex":                    extStringsLastIndex,
+		"strings.LastIndexByte":                extStringsLastIndexByte,
+		"internal/bytealg.IndexByteString":     extStringsIndexByte,
+		"internal/bytealg.IndexString":         extStringsIndex,
+		"internal/bytealg.CountString":         extCountByteString,
+		"internal/bytealg.IndexByte":           extBytesIndexByte,
+		"internal/bytealg.Index":               extBytesIndex,
+		"internal/bytealg.Count":               extBytesCountByte,
+		"internal/bytealg.Equal":               extBytesEqual,
+		"internal/bytealg.MakeNoZero":          extMakeNoZero,
 		"internal/bytealg.LastIndexByteString": extStringsLastIndexByte,
-		"internal/stringslite.Index":       extStringsIndex,
-		"internal/stringslite.IndexByte":   extStringsIndexByte,
-		"bytes.Equal":                      extBytesEqual,
-		"bytes.IndexByte":                  extBytesIndexByte,
-		"bytes.Index":                      extBytesIndex,
-		"(*strings.Builder).copyCheck":     extNop,
-		"(*strings.Builder).String":        extBuilderString,
-		"strings.EqualFold":                extStringsEqualFoldConcrete,
-		"strings.ToLower":                  extStringsToLowerConcrete,
-		"strings.Replace":                  nil, // run from SSA
-		"unicode/utf8.DecodeRuneInString":  extDecodeRuneInString,
-		"unicode/utf8.DecodeRune":          extDecodeRune,
-		"unsafe.String":                    nil,
+		"internal/stringslite.Index":           extStringsIndex,
+		"internal/stringslite.IndexByte":       extStringsIndexByte,
+		"bytes.Equal":                          extBytesEqual,
+		"bytes.IndexByte":                      extBytesIndexByte,
+		"bytes.Index":                          extBytesIndex,
+		"(*strings.Builder).copyCheck":         extNop,
+		"(*strings.Builder).String":            extBuilderString,
+		"strings.EqualFold":                    extStringsEqualFoldConcrete,
+		"strings.ToLower":                      extStringsToLowerConcrete,
+		"strings.Replace":                      nil, // run from SSA
+		"unicode/utf8.DecodeRuneInString":      extDecodeRuneInString,
+		"unicode/utf8.DecodeRune":              extDecodeRune,
+		"unsafe.String":                        nil,
 
 		// ---- fmt / errors / runtime / os
-		"fmt.Sprintf":  extSprintf,
-		"fmt.Errorf":   extErrorf,
-		"fmt.Sprint":   extSprint,
-		"fmt.Fprintf":  extFprintf,
+		"fmt.Sprintf":                   extSprintf,
+		"fmt.Errorf":                    extErrorf,
+		"fmt.Sprint":                    extSprint,
+		"fmt.Fprintf":                   extFprintf,
 		"github.com/pkg/errors.callers": func(fr *frame, args []value) value { return (*value)(nil) },
 		"runtime.Callers":               func(fr *frame, args []value) value { return 0 },
 		"runtime.Caller":                func(fr *frame, args []value) value { return tuple{uintptr(0), "", 0, false} },
@@ -124,12 +124,12 @@ func init() {
 		"strconv.Quote":                 func(fr *frame, args []value) value { return strconv.Quote(fr.i.concString(args[0])) },
 
 		// ---- net/http leaves
-		"net/http.StatusText":                func(fr *frame, args []value) value { return http.StatusText(int(fr.i.concInt(args[0]))) },
-		"(net/http.Header).Get":              extHeaderGet,
-		"(net/http.Header).Set":              extHeaderSet,
-		"(net/http.Header).Add":              extHeaderAdd,
-		"(net/http.Header).Del":              extHeaderDel,
-		"(net/http.Header).Values":           extHeaderValues,
+		"net/http.StatusText":      func(fr *frame, args []value) value { return http.StatusText(int(fr.i.concInt(args[0]))) },
+		"(net/http.Header).Get":    extHeaderGet,
+		"(net/http.Header).Set":    extHeaderSet,
+		"(net/http.Header).Add":    extHeaderAdd,
+		"(net/http.Header).Del":    extHeaderDel,
+		"(net/http.Header).Values": extHeaderValues,
 		"net/textproto.CanonicalMIMEHeaderKey": func(fr *frame, args []value) value {
 			return textproto.CanonicalMIMEHeaderKey(fr.i.concString(args[0]))
 		},
@@ -137,14 +137,14 @@ func init() {
 		"net/http.NotFound": extHTTPNotFound,
 
 		// ---- logging (formatting and logging are never the subject)
-		"github.com/charmbracelet/log.NewWithOptions":      func(fr *frame, args []value) value { return (*value)(nil) },
+		"github.com/charmbracelet/log.NewWithOptions":        func(fr *frame, args []value) value { return (*value)(nil) },
 		"(*github.com/charmbracelet/log.Logger).StandardLog": func(fr *frame, args []value) value { return (*value)(nil) },
-		"(*github.com/charmbracelet/log.Logger).WithPrefix": func(fr *frame, args []value) value { return args[0] },
-		"(*github.com/charmbracelet/log.Logger).Error":     extNop,
-		"(*github.com/charmbracelet/log.Logger).Print":     extNop,
-		"(*github.com/charmbracelet/log.Logger).Info":      extNop,
-		"(*github.com/charmbracelet/log.Logger).Debug":     extNop,
-		"(*github.com/charmbracelet/log.Logger).Warn":      extNop,
+		"(*github.com/charmbracelet/log.Logger).WithPrefix":  func(fr *frame, args []value) value { return args[0] },
+		"(*github.com/charmbracelet/log.Logger).Error":       extNop,
+		"(*github.com/charmbracelet/log.Logger).Print":       extNop,
+		"(*github.com/charmbracelet/log.Logger).Info":        extNop,
+		"(*github.com/charmbracelet/log.Logger).Debug":       extNop,
+		"(*github.com/charmbracelet/log.Logger).Warn":        extNop,
 	} {
 		if v == nil {
 			delete(externals, k)
